@@ -532,6 +532,8 @@ class Interp:
         nm = self.cname(e)
         f = e.func
         kw = {k.arg: k.value for k in e.keywords if k.arg}
+        if isinstance(f, ast.Name) and f.id == "bool" and len(e.args) == 1 and not e.keywords and "bool" not in self.env:
+            return self._ev(e.args[0])          # the truth value of a test is the test
         # ---- closures / package helpers
         if isinstance(f, ast.Name) and isinstance(self.env.get(f.id), Closure):
             return self.inline(self.env[f.id], e)
